@@ -81,6 +81,9 @@ type Case struct {
 	// SettleMs: after the callers are done, wait (without any further input)
 	// until every accepted message was seen in a produce request, at most this long.
 	SettleMs int `json:"settle_ms,omitempty"`
+	// ViaNewWriter: build the Writer with kafka.NewWriter(WriterConfig{...}) (the pre-0.4 constructor, which copies the
+	// configuration into a Writer) and then point it at the scenario's transport.
+	ViaNewWriter bool `json:"via_new_writer,omitempty"`
 	// DefaultBatchBytes: leave Writer.BatchBytes unset (the documented default of 1048576 applies; BatchBytes above holds it
 	// for the oracle).
 	DefaultBatchBytes bool `json:"default_batch_bytes,omitempty"`
@@ -376,6 +379,17 @@ func Run(c Case) *Result {
 	}
 	if c.WriterTopic {
 		w.Topic = c.Topics[0]
+	}
+	if c.ViaNewWriter && c.Acks != 0 {
+		cfg := kafka.WriterConfig{Brokers: []string{"b1.fake:9092"}, Topic: w.Topic, Balancer: bal, MaxAttempts: c.MaxAttempts, BatchSize: c.BatchSize, BatchBytes: int(c.BatchBytes),
+			BatchTimeout: time.Duration(c.BatchTimeoutMs) * time.Millisecond, ReadTimeout: 5 * time.Second, WriteTimeout: wt, RequiredAcks: c.Acks, Async: c.Async}
+		if c.Compression != 0 {
+			cfg.CompressionCodec = kafka.Compression(c.Compression).Codec()
+		}
+		nw2 := kafka.NewWriter(cfg)
+		nw2.Transport = tr
+		nw2.WriteBackoffMin, nw2.WriteBackoffMax = w.WriteBackoffMin, w.WriteBackoffMax
+		w = nw2
 	}
 	if slowLogger != nil {
 		w.Logger = slowLogger
